@@ -7,8 +7,8 @@
    unit = newline text newline); (C) frames of the name lookup; (D) dispatch with ghost counters;
    (E) the READ formatting loop as steps; (F) result code, reset; (G) the composed theorems. *)
 From Coq Require Import List NArith ZArith Bool Arith Lia.
-From CatV Require Import Bytes Defs Codec Spec Fsm Script ResolveDefs SchedDefs GlueDefs TextDefs.
-From CatV Require Lemmas_C02 Lemmas_C02e Lemmas_C07 Lemmas_C07e Lemmas_C11 Lemmas_C19.
+From CatV Require Import Bytes Defs Codec Spec Fsm Script ResolveDefs SchedDefs GlueDefs TextDefs CollectDefs.
+From CatV Require Lemmas_C02 Lemmas_C02e Lemmas_C06 Lemmas_C07 Lemmas_C07e Lemmas_C11 Lemmas_C19.
 Import ListNotations.
 Local Open Scope nat_scope.
 
@@ -429,4 +429,905 @@ Qed.
 
 End Line.
 
+(* ================= E. the READ formatting loop as service calls ================= *)
+Lemma cmd_at_of_cmds : forall i c, nth_error (cmds D) i = Some c -> cmd_at D i = Some c.
+Proof.
+  intros i c H. unfold cmd_at, pool. rewrite nth_error_app1; [exact H|].
+  apply nth_error_Some. congruence.
+Qed.
+
+Definition keepf (s s' : state) : Prop :=
+  u s' = u s /\ gL s' = gL s /\ gR s' = gR s /\ k_cr (k s') = k_cr (k s) /\ k_hold (k s') = k_hold (k s).
+
+Lemma keepf_trans : forall a b c, keepf a b -> keepf b c -> keepf a c.
+Proof.
+  intros a b c (A1 & A2 & A3 & A4 & A5) (B1 & B2 & B3 & B4 & B5).
+  unfold keepf. rewrite B1, B2, B3, B4, B5. repeat split; assumption.
+Qed.
+
+(* an intermediate state of a formatting step: nothing observable moved yet *)
+Definition pre (s s1 : state) : Prop :=
+  keepf s s1 /\ gS s1 = gS s /\ k_state (k s1) = k_state (k s).
+(* the result of a formatting step started outside CS_FLUSH_WAIT: either a flush was started with a
+   fresh cursor (a result code was counted only if it is ERROR), or no result code was counted *)
+Definition post (s s' : state) : Prop :=
+  keepf s s' /\
+  (k_state (k s') = CS_FLUSH_WAIT ->
+     k_position (k s') = 0 /\ k_wstate (k s') = WS_BEFORE /\ k_wbuf (k s') = WB_NL (k_cr (k s')) /\
+     (k_wafter (k s') = CS_AFTER_OK -> gS s' = gS s) /\
+     (k_wafter (k s') = CS_AFTER_RESET -> gS s' = S (gS s))) /\
+  (k_state (k s') <> CS_FLUSH_WAIT -> gS s' = gS s).
+
+Ltac fin_keepf := unfold keepf; repeat split; reflexivity.
+
+Ltac brk := repeat (cbv beta iota zeta; match goal with
+  | |- context [match ?x with _ => _ end] =>
+      lazymatch x with
+      | context [match _ with _ => _ end] => fail
+      | _ => destruct x
+      end
+  end).
+
+Ltac post_tac K1 G1 S1 Hs :=
+  unfold post; split; [eapply keepf_trans; [exact K1 | fin_keepf]|];
+  unfold end_with_error, ack_error, ack_ok, start_flush_after_ok, start_flush_c, set_loop_state, set_fault_flag;
+  split; intros H; Lemmas_C11.scbn_in H; Lemmas_C11.scbn;
+  try discriminate H; try (exfalso; apply H; reflexivity); try (exfalso; first [exact (Hs H) | rewrite S1 in H; exact (Hs H)]);
+  try exact G1;
+  repeat split; try reflexivity; try (intros; discriminate); try (intros; exact G1);
+  try (intros _; rewrite G1; reflexivity).
+
+Lemma pre_refl : forall s, pre s s.
+Proof. intros s. unfold pre. split; [fin_keepf | split; reflexivity]. Qed.
+
+Lemma pre_put_cur : forall s s1 c1, pre s s1 -> pre s (put_cur ATCMD c1 s1).
+Proof.
+  intros s s1 c1 (K & G & S1). unfold put_cur. destruct (cu_fault c1);
+    (split; [eapply keepf_trans; [exact K | fin_keepf] | split; assumption]).
+Qed.
+
+Lemma pre_print_string : forall s s1 t, pre s s1 -> pre s (fst (print_string ATCMD s1 t)).
+Proof.
+  intros s s1 t H. unfold print_string. destruct (print_nstring (get_cur ATCMD s1) t) as [c1 ok].
+  cbn [fst]. apply pre_put_cur. exact H.
+Qed.
+
+Lemma post_fra_state : forall c v s, k_state (k s) <> CS_FLUSH_WAIT -> post s (Lemmas_C07e.fra_state D c v s).
+Proof.
+  intros c v s Hs. unfold Lemmas_C07e.fra_state.
+  destruct (pre_refl s) as (K0 & G0 & S0).
+  destruct (nth_error (mem s) (v_slot v)) as [data|]; [|post_tac K0 G0 S0 Hs].
+  destruct (fmt_var v data (get_cur ATCMD s)) as [c1 ok].
+  destruct (pre_put_cur s s c1 (pre_refl s)) as (K1 & G1 & S1).
+  set (s1 := put_cur ATCMD c1 s) in *. clearbody s1.
+  destruct ok; cbn [negb]; [|post_tac K1 G1 S1 Hs].
+  unfold Lemmas_C07e.fra_rest, next_format_var, cmd_of.
+  brk; post_tac K1 G1 S1 Hs.
+Qed.
+
+Lemma post_spfra : forall s, k_state (k s) <> CS_FLUSH_WAIT ->
+  post s (start_processing_format_read_args D ATCMD s).
+Proof.
+  intros s Hs. unfold start_processing_format_read_args. cbv zeta.
+  assert (P0 : pre s (setg_pos ATCMD 0 s)) by (split; [fin_keepf | split; reflexivity]).
+  set (s0 := setg_pos ATCMD 0 s) in *. clearbody s0. destruct P0 as (K0 & G0 & S0).
+  destruct (cmd_of D ATCMD s0) as [c|]; [|post_tac K0 G0 S0 Hs].
+  pose proof (pre_print_string s s0 (c_name c) (conj K0 (conj G0 S0))) as P1.
+  destruct (print_string ATCMD s0 (c_name c)) as [s1 ok1]. cbn [fst] in P1. destruct P1 as (K1 & G1 & S1).
+  destruct ok1; cbn [negb]; [|post_tac K1 G1 S1 Hs].
+  pose proof (pre_print_string s s1 [ch_EQ] (conj K1 (conj G1 S1))) as P2.
+  destruct (print_string ATCMD s1 [ch_EQ]) as [s2 ok2]. cbn [fst] in P2. destruct P2 as (K2 & G2 & S2).
+  destruct ok2; cbn [negb]; [|post_tac K2 G2 S2 Hs].
+  brk; post_tac K2 G2 S2 Hs.
+Qed.
+
+Lemma post_chain : forall a b c, post a b -> k_state (k b) <> CS_FLUSH_WAIT -> post b c -> post a c.
+Proof.
+  intros a b c (K1 & _ & G1) Hb (K2 & F2 & G2). specialize (G1 Hb).
+  unfold post. split; [eapply keepf_trans; eassumption|]. rewrite <- G1. split; assumption.
+Qed.
+
+(* the call in CS_COMMAND_FOUND for a READ request *)
+Lemma found_read_step : forall s q i c, idle s -> k_state (k s) = CS_COMMAND_FOUND ->
+  k_cmd (k s) = Some i -> cmd_at D i = Some c -> k_type (k s) = T_READ -> c_only_test c = false ->
+  steps 1 s q (start_processing_format_read_args D ATCMD s) q.
+Proof.
+  intros s q i c Hi Hs Hk Hc Hty Hot.
+  assert (E : command_found D s = start_processing_format_read_args D ATCMD s).
+  { unfold command_found, cmd_of, g_cmd. rewrite Hk, Hc, Hty, Hot. reflexivity. }
+  rewrite <- E. apply (Lemmas_C02e.step_pure D Hmx s q (command_found D) Hi).
+  intros h t. unfold cmd_service. cbn [Fsm.st mkw]. rewrite Hs. reflexivity.
+Qed.
+
+(* one call in CS_FORMAT_READ_ARGS for a variable without read callback *)
+Lemma fra_one : forall s q c v, idle s -> k_state (k s) = CS_FORMAT_READ_ARGS ->
+  cmd_of D ATCMD s = Some c -> nth_error (c_vars c) (k_var (k s)) = Some v -> v_hread v = false ->
+  steps 1 s q (Lemmas_C07e.fra_state D c v s) q.
+Proof.
+  intros s q c v Hi Hs Hc Hn Hr.
+  apply (Lemmas_C02e.step_pure D Hmx s q (Lemmas_C07e.fra_state D c v) Hi).
+  intros h t. unfold cmd_service. cbn [Fsm.st mkw]. rewrite Hs. unfold format_read_args.
+  cbn [Fsm.st mkw]. unfold cmd_of in Hc |- *. destruct (g_cmd ATCMD s) as [ci|] eqn:Eg; [|discriminate].
+  rewrite Hc. cbn [g_var]. rewrite Hn, Hr. reflexivity.
+Qed.
+
+(* Lemmas_C07e.rloop_ok, as service calls on the scripted world, with the frame of the final state *)
+Lemma rloop_steps : forall c m nl bsz q, c_hread c = false ->
+  forall vs v pre0 s t rest txts,
+  c_vars c = pre0 ++ v :: vs -> Forall (Lemmas_C07e.rt_var_ok m) (v :: vs) ->
+  Lemmas_C07e.RInv D c m s (length pre0) t rest nl bsz -> idle s ->
+  all_some (map (Lemmas_C07e.slot_text m) (v :: vs)) = Some txts ->
+  length (join_comma txts) < length rest ->
+  exists s', steps (length (v :: vs)) s q s' q /\
+    Lemmas_C07e.RDone m s' (t ++ join_comma txts) bsz /\ post s s'.
+Proof.
+  intros c m nl bsz q Hrd.
+  induction vs as [|v2 vs IH]; intros v pre0 s t rest txts Hc Hok HR Hidl Ha Hl;
+    destruct (Lemmas_C07e.all_some_cons_st _ _ _ _ Ha) as (txt & txts' & -> & Hi & Ha');
+    inversion Hok as [|? ? Hokv Hokvs]; subst;
+    destruct (Lemmas_C07e.var_facts m v txt Hokv Hi) as (data & Hd & Ht & Hdl & Hhex & _);
+    destruct Hokv as (_ & Hnr & _);
+    pose proof (Lemmas_C19.nth_mid _ pre0 v) as Hn;
+    pose proof HR as (HB & Hv & _ & Hst & _);
+    pose proof HB as (_ & Hcmd & _);
+    assert (Hnf : k_state (k s) <> CS_FLUSH_WAIT) by (rewrite Hst; discriminate).
+  - specialize (Hn []). rewrite <- Hc, <- Hv in Hn.
+    cbn [map all_some] in Ha'. injection Ha' as <-.
+    rewrite Lemmas_C07e.join_comma_one in *.
+    exists (Lemmas_C07e.fra_state D c v s). split; [apply fra_one; assumption|]. split.
+    + apply (Lemmas_C07e.fra_last_ok D c m s (length pre0) t rest nl bsz v data txt); try assumption.
+      rewrite Hc, app_length. cbn [length]. lia.
+    + apply post_fra_state. exact Hnf.
+  - specialize (Hn (v2 :: vs)). rewrite <- Hc, <- Hv in Hn.
+    destruct (Lemmas_C07e.all_some_cons_st _ _ _ _ Ha') as (txt2 & txts2 & -> & Hi2 & Ha2).
+    rewrite Lemmas_C07e.join_comma_cons2 in *. rewrite app_length in Hl. cbn [length] in Hl.
+    destruct (Lemmas_C07e.fra_more D c m s (length pre0) t rest nl bsz v data txt HR Hd Ht Hdl Hhex)
+      as (r' & HR' & L); [lia| rewrite Hc, app_length; cbn [length]; lia |].
+    pose proof (post_fra_state c v s Hnf) as HP1.
+    assert (Hst1 : k_state (k (Lemmas_C07e.fra_state D c v s)) <> CS_FLUSH_WAIT).
+    { destruct HR' as (_ & _ & _ & E & _). rewrite E. discriminate. }
+    specialize (IH v2 (pre0 ++ [v]) (Lemmas_C07e.fra_state D c v s)
+                   (t ++ txt ++ [ch_COMMA]) r' (txt2 :: txts2)).
+    replace (length (pre0 ++ [v])) with (S (length pre0)) in IH
+      by (rewrite app_length; cbn [length]; lia).
+    destruct IH as (s' & E & HD & HP2).
+    + rewrite Hc, <- app_assoc. reflexivity.
+    + exact Hokvs.
+    + exact HR'.
+    + apply (Lemmas_C02e.idle_of_u s); [apply HP1 | exact Hidl].
+    + exact Ha'.
+    + lia.
+    + exists s'. split; [|split].
+      * change (length (v :: v2 :: vs)) with (1 + length (v2 :: vs)).
+        eapply Lemmas_C02e.steps_trans; [apply fra_one; eassumption | exact E].
+      * replace (t ++ txt ++ ch_COMMA :: join_comma (txt2 :: txts2))
+          with ((t ++ txt ++ [ch_COMMA]) ++ join_comma (txt2 :: txts2))
+          by (rewrite <- !app_assoc; reflexivity).
+        exact HD.
+      * exact (post_chain _ _ _ HP1 Hst1 HP2).
+Qed.
+
+(* the whole automatic READ response, from CS_COMMAND_FOUND to the start of the flush *)
+Lemma read_steps : forall s q ci c args, idle s -> k_state (k s) = CS_COMMAND_FOUND ->
+  k_cmd (k s) = Some ci -> cmd_at D ci = Some c -> k_type (k s) = T_READ ->
+  Lemmas_C07e.rt_cmd_ok (mem s) c -> fault s = false ->
+  Lemmas_C07e.read_args_text (mem s) c = Some args ->
+  length (c_name c ++ [ch_EQ] ++ args) < length (cbuf s) ->
+  exists s', steps (1 + length (c_vars c)) s q s' q /\
+    Lemmas_C07e.RDone (mem s) s' (c_name c ++ [ch_EQ] ++ args) (length (cbuf s)) /\ post s s'.
+Proof.
+  intros s q ci c args Hidl Hs Hk Hc Hty (Hne & Hok & _ & Hrd & _ & Hot & _) Hf Ha Hfit.
+  assert (Hnf : k_state (k s) <> CS_FLUSH_WAIT) by (rewrite Hs; discriminate).
+  pose proof (found_read_step s q ci c Hidl Hs Hk Hc Hty Hot) as H1.
+  unfold cmd_at in Hc. unfold Lemmas_C07e.read_args_text in Ha.
+  change (fun v : var => match nth_error (mem s) (v_slot v) with
+                         | Some d => var_text v d | None => None end)
+    with (Lemmas_C07e.slot_text (mem s)) in Ha.
+  destruct (all_some (map (Lemmas_C07e.slot_text (mem s)) (c_vars c))) as [txts|] eqn:Hall; [|discriminate].
+  injection Ha as <-.
+  destruct (c_vars c) as [|v vs] eqn:Hvs; [congruence|].
+  assert (Hrw : v_access v = RW).
+  { inversion Hok as [|? ? (A & _) _]. exact A. }
+  rewrite !app_length in Hfit. cbn [length] in Hfit.
+  destruct (Lemmas_C07e.read_start_ok D s ci c v vs Hk Hc Hf Hvs Hrw) as (r & HR & L); [lia|].
+  pose proof (post_spfra s Hnf) as HP1.
+  set (s1 := start_processing_format_read_args D ATCMD s) in *.
+  assert (Hst1 : k_state (k s1) <> CS_FLUSH_WAIT).
+  { destruct HR as (_ & _ & _ & E & _). rewrite E. discriminate. }
+  assert (Hi1 : idle s1) by (apply (Lemmas_C02e.idle_of_u s); [apply HP1 | exact Hidl]).
+  destruct (rloop_steps c (mem s) (nl_chars s) (length (cbuf s)) q Hrd vs v [] s1
+              (c_name c ++ [ch_EQ]) (0%N :: r) txts Hvs Hok HR Hi1 Hall) as (s' & E & HD & HP2).
+  { cbn [length]. lia. }
+  exists s'. split; [eapply Lemmas_C02e.steps_trans; [exact H1 | exact E]|]. split.
+  - rewrite <- app_assoc in HD. exact HD.
+  - exact (post_chain _ _ _ HP1 Hst1 HP2).
+Qed.
+
+(* the response text contains no NUL (from the proof of Lemmas_C07e.C07_read_response) *)
+Lemma txt_no_nul : forall m c args, Lemmas_C07e.rt_cmd_ok m c ->
+  Lemmas_C07e.read_args_text m c = Some args -> ~ In 0%N (c_name c ++ [ch_EQ] ++ args).
+Proof.
+  intros m c args (_ & Hokv & _ & _ & _ & _ & Hname) Ha.
+  unfold Lemmas_C07e.read_args_text in Ha.
+  change (fun v : var => match nth_error m (v_slot v) with
+                         | Some d => var_text v d | None => None end)
+    with (Lemmas_C07e.slot_text m) in Ha.
+  destruct (all_some (map (Lemmas_C07e.slot_text m) (c_vars c))) as [txts|] eqn:Hall; [|discriminate].
+  injection Ha as <-.
+  pose proof (Lemmas_C07e.notin0_join txts (Lemmas_C07e.texts_no_nul _ _ _ Hokv Hall)) as Hj.
+  intro Hin. apply in_app_or in Hin. destruct Hin as [Hin|Hin]; [exact (Hname Hin)|].
+  destruct Hin as [Hin|Hin]; [discriminate Hin|exact (Hj Hin)].
+Qed.
+
+(* ================= F. emitting a unit, the result code, the reset ================= *)
+Lemma In0_strncpy : forall m t, length t < m -> In 0%N (strncpy_buf m t).
+Proof.
+  intros m t H. unfold strncpy_buf. rewrite firstn_app, (firstn_all2 t) by lia.
+  apply in_or_app. right.
+  destruct (m - length t) as [|d] eqn:E; [lia|]. destruct m as [|m']; [lia|].
+  cbn [repeat firstn]. left. reflexivity.
+Qed.
+
+(* the flush has been prepared with a fresh cursor *)
+Definition fresh (s : state) : Prop :=
+  k_state (k s) = CS_FLUSH_WAIT /\ k_position (k s) = 0 /\ k_wstate (k s) = WS_BEFORE /\
+  k_wbuf (k s) = WB_NL (k_cr (k s)).
+
+Lemma emit_unit : forall s q txt, idle s -> fresh s -> k_cr (k s) = false ->
+  In 0%N (cbuf s) -> text_of (cbuf s) = txt ->
+  exists s3, osteps (6 + length txt) s q s3 q ([ch_LF] ++ txt ++ [ch_LF]) /\ keep s s3 /\
+    k_state (k s3) = k_wafter (k s) /\
+    gR s3 = (if cstate_beq (k_wafter (k s)) CS_AFTER_RESET then S (gR s) else gR s).
+Proof.
+  intros s q txt Hi (Hs & Hp & Hw & Hb) Hcr H0 HT.
+  assert (H1 : osteps 1 s q (setk_state CS_FLUSH s) q []).
+  { apply (ostep_pure s q (setk_state CS_FLUSH) Hi). intros h t. unfold cmd_service. cbn [Fsm.st mkw].
+    rewrite Hs. unfold busy, upd_st, process_io_write_wait. cbn [Fsm.st mkw]. destruct Hi as [U _].
+    rewrite U. reflexivity. }
+  destruct (unit_osteps (setk_state CS_FLUSH s) q txt Hi eq_refl Hp Hw Hb Hcr H0 HT) as (s3 & O & K & A & G).
+  exists s3. split; [|split; [|split; assumption]].
+  - change (6 + length txt) with (1 + (5 + length txt)).
+    exact (osteps_trans _ _ _ _ _ _ _ _ _ _ H1 O).
+  - exact K.
+Qed.
+
+(* a result code (text in the buffer, continuation CS_AFTER_RESET): the unit, then back to idle *)
+Lemma result_tail : forall s q txt, idle s -> fresh s -> k_wafter (k s) = CS_AFTER_RESET ->
+  k_cr (k s) = false -> k_hold (k s) = false -> In 0%N (cbuf s) -> text_of (cbuf s) = txt ->
+  exists s4, osteps (7 + length txt) s q s4 q ([ch_LF] ++ txt ++ [ch_LF]) /\
+    k_state (k s4) = CS_IDLE /\ mem s4 = mem s /\ fault s4 = fault s /\ u s4 = u s /\
+    gL s4 = gL s /\ gS s4 = gS s /\ gR s4 = S (gR s) /\
+    k_cr (k s4) = false /\ k_hold (k s4) = false /\ k_cmd (k s4) = None /\ cbuf s4 = cbuf s.
+Proof.
+  intros s q txt Hi Hfr Haf Hcr Hh H0 HT.
+  destruct (emit_unit s q txt Hi Hfr Hcr H0 HT) as (s3 & O & K & A & G).
+  rewrite Haf in A, G. cbn [cstate_beq] in G.
+  pose proof K as (K1 & K2 & K3 & K4 & K5 & K6 & K7 & K8).
+  assert (H2 : osteps 1 s3 q (reset_state s3) q []).
+  { apply (ostep_pure s3 q reset_state (idle_keep s s3 K Hi)). intros h t. unfold cmd_service.
+    cbn [Fsm.st mkw]. rewrite A. reflexivity. }
+  exists (reset_state s3). split.
+  - replace (7 + length txt) with ((6 + length txt) + 1) by lia.
+    eapply osteps_cast; [exact (osteps_trans _ _ _ _ _ _ _ _ _ _ O H2) | reflexivity | apply app_nil_r].
+  - unfold reset_state. rewrite K7, Hh. Lemmas_C11.scbn. repeat split; congruence.
+Qed.
+
+Lemma ok_tail : forall s q, idle s -> k_state (k s) = CS_AFTER_OK ->
+  k_cr (k s) = false -> k_hold (k s) = false -> 6 <= length (cbuf s) ->
+  exists s4, osteps 10 s q s4 q ([ch_LF] ++ txt_OK ++ [ch_LF]) /\
+    k_state (k s4) = CS_IDLE /\ mem s4 = mem s /\ fault s4 = fault s /\ u s4 = u s /\
+    gL s4 = gL s /\ gS s4 = S (gS s) /\ gR s4 = S (gR s) /\
+    k_cr (k s4) = false /\ k_hold (k s4) = false /\ k_cmd (k s4) = None.
+Proof.
+  intros s q Hi Hs Hcr Hh H6.
+  assert (H1 : osteps 1 s q (ack_ok s) q []).
+  { apply (ostep_pure s q ack_ok Hi). intros h t. unfold cmd_service. cbn [Fsm.st mkw].
+    rewrite Hs. reflexivity. }
+  destruct (Lemmas_C19.ack_ok_props s H6) as (_ & _ & _ & HT).
+  assert (Hfr : fresh (ack_ok s)) by (repeat split; reflexivity).
+  assert (H0 : In 0%N (cbuf (ack_ok s))).
+  { change (In 0%N (strncpy_buf (asz s) txt_OK)). apply In0_strncpy. unfold asz. cbn [length txt_OK]. lia. }
+  destruct (result_tail (ack_ok s) q txt_OK Hi Hfr eq_refl Hcr Hh H0 HT) as (s4 & O & R).
+  exists s4. split; [exact (osteps_trans _ _ _ _ _ _ _ _ _ _ H1 O)|].
+  destruct R as (R1 & R2 & R3 & R4 & R5 & R6 & R7 & R8 & R9 & R10 & _).
+  repeat split; assumption.
+Qed.
+
+Lemma err_tail : forall s q, idle s -> k_state (k s) = CS_COMMAND_NOT_FOUND ->
+  k_cr (k s) = false -> k_hold (k s) = false -> 6 <= length (cbuf s) ->
+  exists s4, osteps 13 s q s4 q ([ch_LF] ++ txt_ERROR ++ [ch_LF]) /\
+    k_state (k s4) = CS_IDLE /\ mem s4 = mem s /\ fault s4 = fault s /\ u s4 = u s /\
+    gL s4 = gL s /\ gS s4 = S (gS s) /\ gR s4 = S (gR s) /\
+    k_cr (k s4) = false /\ k_hold (k s4) = false /\ k_cmd (k s4) = None.
+Proof.
+  intros s q Hi Hs Hcr Hh H6.
+  assert (H1 : osteps 1 s q (ack_error s) q []).
+  { apply (ostep_pure s q ack_error Hi). intros h t. unfold cmd_service. cbn [Fsm.st mkw].
+    rewrite Hs. reflexivity. }
+  destruct (Lemmas_C19.ack_error_props s H6) as (_ & _ & _ & HT).
+  assert (Hfr : fresh (ack_error s)) by (repeat split; reflexivity).
+  assert (H0 : In 0%N (cbuf (ack_error s))).
+  { change (In 0%N (strncpy_buf (asz s) txt_ERROR)). apply In0_strncpy. unfold asz. cbn [length txt_ERROR]. lia. }
+  destruct (result_tail (ack_error s) q txt_ERROR Hi Hfr eq_refl Hcr Hh H0 HT) as (s4 & O & R).
+  exists s4. split; [exact (osteps_trans _ _ _ _ _ _ _ _ _ _ H1 O)|].
+  destruct R as (R1 & R2 & R3 & R4 & R5 & R6 & R7 & R8 & R9 & R10 & _).
+  repeat split; assumption.
+Qed.
+
+
+(* ================= F'. the WRITE path: collecting the arguments, storing them ================= *)
+
+(* the argument text contains no line feed and does not start with '?' *)
+Lemma notin_join : forall (x : N) (txts : list (list N)), x <> ch_COMMA ->
+  Forall (fun t => ~ In x t) txts -> ~ In x (join_comma txts).
+Proof.
+  intros x [|y r] Hx H; [intros []|]. inversion H as [|? ? Hy Hr]; subst.
+  cbn [join_comma]. intro Hin. apply in_app_or in Hin. destruct Hin as [Hin|Hin]; [exact (Hy Hin)|].
+  apply in_concat in Hin. destruct Hin as (l & Hl & H0).
+  apply in_map_iff in Hl. destruct Hl as (z & <- & Hz).
+  destruct H0 as [H0|H0]; [exact (Hx (eq_sym H0))|].
+  rewrite Forall_forall in Hr. exact (Hr z Hz H0).
+Qed.
+
+Lemma texts_no_lf : forall m vs txts, Forall (Lemmas_C07e.rt_var_ok m) vs ->
+  all_some (map (Lemmas_C07e.slot_text m) vs) = Some txts ->
+  Forall (fun t => ~ In ch_LF t) txts /\
+  match txts with t :: _ => match t with q :: _ => q <> ch_QM | [] => False end | [] => True end.
+Proof.
+  intros m. induction vs as [|v vs IH]; intros txts Hok Ha.
+  - cbn [map all_some] in Ha. injection Ha as <-. split; [constructor | exact I].
+  - destruct (Lemmas_C07e.all_some_cons_st _ _ _ _ Ha) as (txt & txts' & -> & Hi & Ha').
+    inversion Hok as [|? ? Hokv Hokvs]; subst.
+    destruct (Lemmas_C07e.var_facts m v txt Hokv Hi) as (data & _ & Ht & Hdl & Hhex & Hb & _).
+    destruct (Lemmas_C07.C07_no_delim v data txt Hb ltac:(lia) Ht) as (_ & B & _ & Q).
+    pose proof (Lemmas_C07e.var_text_nonempty v data txt Ht Hdl Hhex) as Hne.
+    split; [constructor; [exact B | exact (proj1 (IH _ Hokvs Ha'))]|].
+    destruct txt; [congruence | exact Q].
+Qed.
+
+Lemma args_no_lf : forall m c args, Lemmas_C07e.rt_cmd_ok m c ->
+  Lemmas_C07e.read_args_text m c = Some args ->
+  ~ In ch_LF args /\ match args with q :: _ => q <> ch_QM | [] => True end.
+Proof.
+  intros m c args (_ & Hokv & _) Ha.
+  unfold Lemmas_C07e.read_args_text in Ha.
+  change (fun v : var => match nth_error m (v_slot v) with
+                         | Some d => var_text v d | None => None end)
+    with (Lemmas_C07e.slot_text m) in Ha.
+  destruct (all_some (map (Lemmas_C07e.slot_text m) (c_vars c))) as [txts|] eqn:Hall; [|discriminate].
+  injection Ha as <-.
+  destruct (texts_no_lf m _ _ Hokv Hall) as [A B]. split.
+  - apply notin_join; [discriminate | exact A].
+  - destruct txts as [|t r]; [exact I|]. destruct t as [|q t]; [destruct B|]. exact B.
+Qed.
+
+Lemma no_cr_id : forall bs, ~ In ch_CR bs -> no_cr bs = bs.
+Proof.
+  induction bs as [|b bs IH]; intros H; [reflexivity|]. unfold no_cr in *. cbn [filter].
+  destruct (b =? ch_CR)%N eqn:E.
+  - apply N.eqb_eq in E. exfalso. apply H. left. exact E.
+  - cbn [negb]. rewrite IH; [reflexivity|]. intro Hin. apply H. right. exact Hin.
+Qed.
+
+(* the call in CS_COMMAND_FOUND for a WRITE request *)
+Lemma found_write_step : forall s q, idle s -> k_state (k s) = CS_COMMAND_FOUND ->
+  steps 1 s q (command_found D s) q.
+Proof.
+  intros s q Hi Hs. apply (Lemmas_C02e.step_pure D Hmx s q (command_found D) Hi).
+  intros h t. unfold cmd_service. cbn [Fsm.st mkw]. rewrite Hs. reflexivity.
+Qed.
+
+Lemma found_write_pre : forall s c, cmd_of D ATCMD s = Some c -> k_type (k s) = T_WRITE ->
+  keepf s (command_found D s) /\ gS (command_found D s) = gS s /\ k_hold (k (command_found D s)) = k_hold (k s).
+Proof.
+  intros s c Hc Hty. unfold command_found. rewrite Hc, Hty.
+  destruct (cbuf (setk_length 0 s)); repeat split; reflexivity.
+Qed.
+
+(* one byte in CS_PARSE_COMMAND_ARGS *)
+Lemma pca_step : forall s b q, idle s -> k_state (k s) = CS_PARSE_COMMAND_ARGS ->
+  steps 1 s (b :: q) (pca_body D (k_char (k (Lemmas_C02e.rd_state s b))) (Lemmas_C02e.rd_state s b)) q.
+Proof.
+  intros s b q Hi Hs. apply (Lemmas_C02e.step_read D Hmx s b q (pca_body D) Hi).
+  intros h t. unfold cmd_service. cbn [Fsm.st mkw]. rewrite Hs.
+  apply Lemmas_C06.C06_pca_body_is_model.
+Qed.
+
+Lemma pca_body_keep : forall ch s, ch <> ch_LF -> ch <> ch_CR ->
+  keepf s (pca_body D ch s) /\ gS (pca_body D ch s) = gS s.
+Proof.
+  intros ch s H1 H2. apply N.eqb_neq in H1. apply N.eqb_neq in H2.
+  unfold pca_body. rewrite H1, H2. brk; (split; [fin_keepf | reflexivity]).
+Qed.
+
+(* the bytes of the argument text (no LF, no CR): exactly the iteration args_feed *)
+Lemma args_steps : forall c bs s q, idle s -> k_state (k s) = CS_PARSE_COMMAND_ARGS ->
+  cmd_of D ATCMD s = Some c -> k_length (k s) = 0 -> 0 < asz s -> fault s = false ->
+  nth_error (cbuf s) 0 = Some 0%N -> ~ In ch_LF bs -> ~ In ch_CR bs ->
+  (test_shortcut c = true -> match bs with q :: _ => q <> ch_QM | [] => True end) ->
+  length bs < asz s ->
+  steps (length bs) s (bs ++ q) (args_feed D s bs) q /\
+  keepf s (args_feed D s bs) /\ gS (args_feed D s bs) = gS s.
+Proof.
+  intros c. induction bs as [|b bs IH] using rev_ind; intros s q Hi Hs Hc Hl Ha Hf H0 Hlf Hcr Hq Hfit.
+  - split; [apply Lemmas_C02e.steps_0 | split; [fin_keepf | reflexivity]].
+  - assert (Hlf' : ~ In ch_LF bs) by (intro X; apply Hlf; apply in_or_app; left; exact X).
+    assert (Hcr' : ~ In ch_CR bs) by (intro X; apply Hcr; apply in_or_app; left; exact X).
+    assert (Hb1 : b <> ch_LF) by (intro X; apply Hlf; apply in_or_app; right; left; exact X).
+    assert (Hb2 : b <> ch_CR) by (intro X; apply Hcr; apply in_or_app; right; left; exact X).
+    assert (Hq' : test_shortcut c = true -> match bs with q :: _ => q <> ch_QM | [] => True end).
+    { intros T. specialize (Hq T). destruct bs; [exact I | exact Hq]. }
+    rewrite app_length in Hfit |- *. cbn [length] in Hfit |- *.
+    destruct (IH s (b :: q) Hi Hs Hc Hl Ha Hf H0 Hlf' Hcr' Hq' ltac:(lia)) as (S1 & K1 & G1).
+    pose proof (Lemmas_C06.C06_collect D s c bs Hs Hc Hl Ha Hf H0 Hlf') as HC.
+    rewrite (no_cr_id bs Hcr') in HC. specialize (HC Hq'). cbv zeta in HC.
+    destruct HC as (_ & _ & _ & HC).
+    replace (length bs <? asz s) with true in HC by (symmetry; apply Nat.ltb_lt; lia).
+    destruct HC as (Hs' & _).
+    set (s' := args_feed D s bs) in *.
+    assert (Hi' : idle s') by (apply (Lemmas_C02e.idle_of_u s); [apply K1 | exact Hi]).
+    assert (E : args_feed D s (bs ++ [b]) = pca_body D b (setk_char b s')).
+    { unfold args_feed. rewrite fold_left_app. cbn [fold_left]. fold (args_feed D s bs). fold s'.
+      unfold args_byte. rewrite Hs'. reflexivity. }
+    assert (Hrd : Lemmas_C02e.rd_state s' b = setk_char b s').
+    { unfold Lemmas_C02e.rd_state. rewrite Hs'. cbn [cstate_beq].
+      apply N.eqb_neq in Hb1. rewrite Hb1. reflexivity. }
+    pose proof (pca_step s' b q Hi' Hs') as S2. rewrite Hrd in S2.
+    change (k_char (k (setk_char b s'))) with b in S2. rewrite <- E in S2.
+    destruct (pca_body_keep b (setk_char b s') Hb1 Hb2) as (K2 & G2). rewrite <- E in K2, G2.
+    split; [|split].
+    + rewrite <- app_assoc. cbn [app]. exact (Lemmas_C02e.steps_trans D _ _ _ _ _ _ _ _ S1 S2).
+    + eapply keepf_trans; [exact K1|]. eapply keepf_trans; [|exact K2]. fin_keepf.
+    + rewrite G2. exact G1.
+Qed.
+
+
+
+(* the line feed that ends the arguments: on to the variable parser *)
+Definition pwa_entry (s : state) : state :=
+  set_gL (S (gL s)) (setk_char ch_LF s)
+    |> setk_state CS_PARSE_WRITE_ARGS |> setk_position 0 |> setk_index 0 |> setk_var 0.
+
+Lemma pca_lf_step : forall s q c v vs, idle s -> k_state (k s) = CS_PARSE_COMMAND_ARGS ->
+  cmd_of D ATCMD s = Some c -> c_only_test c = false -> c_vars c = v :: vs -> v_access v = RW ->
+  steps 1 s (ch_LF :: q) (pwa_entry s) q.
+Proof.
+  intros s q c v vs Hi Hs Hc Hot Hvs Hrw.
+  pose proof (pca_step s ch_LF q Hi Hs) as S1.
+  assert (Hrd : Lemmas_C02e.rd_state s ch_LF = set_gL (S (gL s)) (setk_char ch_LF s)).
+  { unfold Lemmas_C02e.rd_state. rewrite Hs. reflexivity. }
+  rewrite Hrd in S1. change (k_char (k (set_gL (S (gL s)) (setk_char ch_LF s)))) with ch_LF in S1.
+  assert (E : pca_body D ch_LF (set_gL (S (gL s)) (setk_char ch_LF s)) = pwa_entry s).
+  { unfold pca_body.
+    change (cmd_of D ATCMD (set_gL (S (gL s)) (setk_char ch_LF s))) with (cmd_of D ATCMD s).
+    rewrite Hc. change (ch_LF =? ch_LF)%N with true. cbv iota.
+    rewrite Hot, (Lemmas_C07e.vap_rw c v vs WO Hvs Hrw). reflexivity. }
+  rewrite E in S1. exact S1.
+Qed.
+
+(* one call in CS_PARSE_WRITE_ARGS for a variable without write callback whose field is accepted *)
+Lemma pwa_one : forall s q c v data comma d ws nn, idle s -> k_state (k s) = CS_PARSE_WRITE_ARGS ->
+  cmd_of D ATCMD s = Some c -> nth_error (c_vars c) (k_var (k s)) = Some v ->
+  nth_error (mem s) (v_slot v) = Some data -> v_hwrite v = false ->
+  decode_var v (skipn (k_position (k s)) (cbuf s)) data = (SOk comma, d, ws, nn) ->
+  steps 1 s q (Lemmas_C07e.pwa_next c comma (Lemmas_C07e.pwa_store v d ws nn s)) q.
+Proof.
+  intros s q c v data comma d ws nn Hi Hs Hc Hn Hd Hw He.
+  apply (Lemmas_C02e.step_pure D Hmx s q
+           (fun _ => Lemmas_C07e.pwa_next c comma (Lemmas_C07e.pwa_store v d ws nn s)) Hi).
+  intros h t. unfold cmd_service. cbn [Fsm.st mkw]. rewrite Hs. unfold parse_write_args. cbv zeta.
+  cbn [Fsm.st mkw]. unfold cmd_of in Hc |- *. destruct (g_cmd ATCMD s) as [ci|] eqn:Eg; [|discriminate].
+  rewrite Hc, Hn, Hd, He, Hw. reflexivity.
+Qed.
+
+Lemma post_pwa : forall c comma v d ws nn s, k_state (k s) <> CS_FLUSH_WAIT ->
+  post s (Lemmas_C07e.pwa_next c comma (Lemmas_C07e.pwa_store v d ws nn s)).
+Proof.
+  intros c comma v d ws nn s Hs.
+  assert (P1 : pre s (Lemmas_C07e.pwa_store v d ws nn s)) by (split; [fin_keepf | split; reflexivity]).
+  set (s1 := Lemmas_C07e.pwa_store v d ws nn s) in *. clearbody s1. destruct P1 as (K1 & G1 & S1).
+  unfold Lemmas_C07e.pwa_next. brk; post_tac K1 G1 S1 Hs.
+Qed.
+
+Lemma wmid_last_in0 : forall c m m0 cb s pre0 v p,
+  Lemmas_C07e.WMid D c m m0 cb s pre0 v p -> c_vars c = pre0 ++ [v] -> c_hwrite c = false ->
+  3 <= length cb -> In 0%N (cbuf (Lemmas_C07e.pwa_next c false s)).
+Proof.
+  intros c m m0 cb s pre0 v p (W1 & W2 & W3 & W5 & W6 & W7 & W8 & W9 & W10) Hc Hw H3.
+  unfold Lemmas_C07e.pwa_next. cbv zeta. rewrite W5, Hw, andb_false_r.
+  replace (S (length pre0) =? length (c_vars c)) with true.
+  2:{ symmetry. apply Nat.eqb_eq. rewrite Hc, app_length. cbn [length]. lia. }
+  cbn [negb]. rewrite andb_false_r.
+  change (In 0%N (strncpy_buf (length (cbuf s)) txt_OK)).
+  apply In0_strncpy. rewrite W6. cbn [length txt_OK]. lia.
+Qed.
+
+(* Lemmas_C07e.wloop as service calls on the scripted world, with the frame of the final state *)
+Lemma wloop_steps : forall c m m0 cb q, c_hwrite c = false -> NoDup (map v_slot (c_vars c)) ->
+  3 <= length cb ->
+  forall vs v pre0 s done txts tl,
+  c_vars c = pre0 ++ v :: vs -> Forall (Lemmas_C07e.rt_var_ok m) (v :: vs) ->
+  Lemmas_C07e.WInv D c m m0 cb s pre0 (length done) -> idle s ->
+  all_some (map (Lemmas_C07e.slot_text m) (v :: vs)) = Some txts ->
+  cb = done ++ join_comma txts ++ 0%N :: tl ->
+  exists s', steps (length (v :: vs)) s q s' q /\ Lemmas_C07e.WDone c m m0 s' /\ post s s' /\
+             In 0%N (cbuf s').
+Proof.
+  intros c m m0 cb q Hw Hnd H3.
+  induction vs as [|v2 vs IH]; intros v pre0 s done txts tl Hc Hok HW Hidl Ha Hcb;
+    destruct (Lemmas_C07e.all_some_cons_st _ _ _ _ Ha) as (txt & txts' & -> & Hi & Ha');
+    inversion Hok as [|? ? Hokv Hokvs]; subst x l;
+    pose proof Hokv as (_ & _ & Hnw & _);
+    pose proof HW as (_ & Hst & Hcmd & _);
+    assert (Hnf : k_state (k s) <> CS_FLUSH_WAIT) by (rewrite Hst; discriminate).
+  - cbn [map all_some] in Ha'. injection Ha' as <-.
+    rewrite Lemmas_C07e.join_comma_one in Hcb.
+    destruct (Lemmas_C07e.wstep_decode D c m m0 cb s pre0 (length done) v [] txt 0%N tl done
+                HW Hc Hnd Hokv Hi eq_refl Hcb eq_refl) as (data' & d & ws & Hn & Hd' & Hdec & HM).
+    change (0 =? ch_COMMA)%N with false in Hdec.
+    exists (Lemmas_C07e.pwa_next c false (Lemmas_C07e.pwa_store v d ws (S (length txt)) s)).
+    split; [exact (pwa_one s q c v data' false d ws _ Hidl Hst Hcmd Hn Hd' Hnw Hdec)|].
+    split; [apply (Lemmas_C07e.wmid_last D _ _ _ _ _ _ _ _ HM Hc Hw); lia|].
+    split; [apply post_pwa; exact Hnf|].
+    exact (wmid_last_in0 _ _ _ _ _ _ _ _ HM Hc Hw H3).
+  - destruct (Lemmas_C07e.all_some_cons_st _ _ _ _ Ha') as (txt2 & txts2 & -> & Hi2 & Ha2).
+    rewrite Lemmas_C07e.join_comma_cons2 in Hcb.
+    destruct (Lemmas_C07e.wstep_decode D c m m0 cb s pre0 (length done) v (v2 :: vs) txt ch_COMMA
+                (join_comma (txt2 :: txts2) ++ 0%N :: tl) done
+                HW Hc Hnd Hokv Hi eq_refl) as (data' & d & ws & Hn & Hd' & Hdec & HM).
+    { rewrite Hcb, <- !app_assoc. reflexivity. }
+    { reflexivity. }
+    change (ch_COMMA =? ch_COMMA)%N with true in Hdec.
+    pose proof (pwa_one s q c v data' true d ws _ Hidl Hst Hcmd Hn Hd' Hnw Hdec) as S1.
+    pose proof (post_pwa c true v d ws (S (length txt)) s Hnf) as HP1.
+    pose proof (Lemmas_C07e.wmid_more D _ _ _ _ _ _ _ _ HM) as HW'.
+    specialize (HW' ltac:(rewrite Hc, app_length; cbn [length]; lia)).
+    set (s1 := Lemmas_C07e.pwa_next c true (Lemmas_C07e.pwa_store v d ws (S (length txt)) s)) in *.
+    assert (Hst1 : k_state (k s1) <> CS_FLUSH_WAIT).
+    { destruct HW' as (_ & E & _). rewrite E. discriminate. }
+    specialize (IH v2 (pre0 ++ [v]) s1 (done ++ txt ++ [ch_COMMA]) (txt2 :: txts2) tl).
+    destruct IH as (s' & E & HD & HP2 & HI).
+    + rewrite Hc, <- app_assoc. reflexivity.
+    + exact Hokvs.
+    + exact HW'.
+    + apply (Lemmas_C02e.idle_of_u s); [apply HP1 | exact Hidl].
+    + exact Ha'.
+    + rewrite Hcb, <- !app_assoc. reflexivity.
+    + exists s'. split; [|split; [exact HD | split; [exact (post_chain _ _ _ HP1 Hst1 HP2) | exact HI]]].
+      change (length (v :: v2 :: vs)) with (1 + length (v2 :: vs)).
+      exact (Lemmas_C02e.steps_trans D _ _ _ _ _ _ _ _ S1 E).
+Qed.
+
+(* ================= G. whole lines ================= *)
+Section Lines.
+Variable s : state.
+Hypothesis Hn : 0 < n.
+Hypothesis HL : n <= 4 * length (cbuf s).
+Hypothesis H6 : 6 <= length (cbuf s).
+Hypothesis Hf : fault s = false.
+Hypothesis Hst : k_state (k s) = CS_IDLE.
+Hypothesis Hcr : k_cr (k s) = false.
+Hypothesis Himp : k_implicit (k s) = false.
+Hypothesis Hhold : k_hold (k s) = false.
+Hypothesis Hidle : idle s.
+
+(* what a finished line leaves behind *)
+Definition line_done (s4 : state) : Prop :=
+  k_state (k s4) = CS_IDLE /\ mem s4 = mem s /\ fault s4 = false /\ u s4 = u s /\
+  gL s4 = S (gL s) /\ gS s4 = S (gS s) /\ gR s4 = S (gR s) /\
+  k_cr (k s4) = false /\ k_hold (k s4) = false /\ k_cmd (k s4) = None.
+
+Lemma read_line_osteps : forall name rest i c args,
+  name_ok name = true -> implicit_hit D s (upper name) = false ->
+  resolve (upper name) (enabled D s) (cmds D) = Some i -> nth_error (cmds D) i = Some c ->
+  Lemmas_C07e.rt_cmd_ok (mem s) c -> Lemmas_C07e.read_args_text (mem s) c = Some args ->
+  length (c_name c ++ [ch_EQ] ++ args) < length (cbuf s) ->
+  exists calls s4,
+    osteps calls s ([ch_A; ch_T] ++ name ++ [ch_QM; ch_LF] ++ rest) s4 rest
+      ([ch_LF] ++ c_name c ++ [ch_EQ] ++ args ++ [ch_LF] ++ [ch_LF] ++ txt_OK ++ [ch_LF]) /\
+    line_done s4.
+Proof.
+  intros name rest i c args Hok Hh Hres Hc Hrt Ha Hfit.
+  destruct (dispatch_read_ex s Hn HL Hf Hst Himp Hidle name rest Hok Hh)
+    as (c1 & s2 & H1 & (M2 & F2 & U2 & R2) & S2).
+  rewrite Hres in R2. destruct R2 as (A1 & A2 & A3 & A4).
+  unfold six in S2.
+  assert (G2 : gL s2 = S (gL s) /\ gS s2 = gS s /\ gR s2 = gR s /\ k_cr (k s2) = false /\
+               k_hold (k s2) = false /\ length (cbuf s2) = length (cbuf s)).
+  { repeat split; congruence. }
+  destruct G2 as (gl2 & gs2 & gr2 & cr2 & ho2 & len2).
+  pose proof (cmd_at_of_cmds i c Hc) as Hc'.
+  assert (Hi2 : idle s2) by (apply (Lemmas_C02e.idle_of_u s); assumption).
+  rewrite <- M2 in Hrt, Ha. rewrite <- len2 in Hfit.
+  destruct (read_steps s2 rest i c args Hi2 A1 A2 Hc' A3 Hrt F2 Ha Hfit)
+    as (s3 & H2 & (D1 & (r & D2) & D3 & D4 & D5 & D6) & (KF & FL & _)).
+  destruct (FL D4) as (P1 & P2 & P3 & P4 & _). specialize (P4 D5).
+  destruct KF as (u3 & gl3 & gr3 & cr3 & ho3).
+  assert (Hi3 : idle s3) by (apply (Lemmas_C02e.idle_of_u s2); assumption).
+  assert (Hcr3 : k_cr (k s3) = false) by congruence.
+  set (txt := c_name c ++ [ch_EQ] ++ args) in *.
+  assert (HT3 : text_of (cbuf s3) = txt).
+  { rewrite D2. apply Lemmas_C19.text_of_app0. exact (txt_no_nul _ c args Hrt Ha). }
+  assert (H03 : In 0%N (cbuf s3)) by (rewrite D2; apply in_or_app; right; left; reflexivity).
+  destruct (emit_unit s3 rest txt Hi3 (conj D4 (conj P1 (conj P2 P3))) Hcr3 H03 HT3)
+    as (s5 & O3 & K3 & A5 & G5).
+  rewrite D5 in A5, G5. cbn [cstate_beq] in G5.
+  destruct K3 as (K1 & K2 & K3 & K4 & K5 & K6 & K7 & K8).
+  assert (Hi5 : idle s5) by (apply (Lemmas_C02e.idle_of_u s3); assumption).
+  destruct (ok_tail s5 rest Hi5 A5) as (s6 & O4 & R1 & R2 & R3 & R4 & R5 & R6 & R7 & R8 & R9 & R10);
+    [congruence | congruence | rewrite K8; lia |].
+  exists (c1 + ((1 + length (c_vars c)) + ((6 + length txt) + 10))), s6. split.
+  - eapply osteps_cast;
+      [exact (osteps_trans _ _ _ _ _ _ _ _ _ _ (osteps_of_steps _ _ _ _ _ H1)
+               (osteps_trans _ _ _ _ _ _ _ _ _ _ (osteps_of_steps _ _ _ _ _ H2)
+                  (osteps_trans _ _ _ _ _ _ _ _ _ _ O3 O4))) | reflexivity |].
+    unfold txt. cbn [app]. rewrite <- !app_assoc. reflexivity.
+  - unfold line_done. repeat split; congruence.
+Qed.
+
+(* an unknown or ambiguous name:  "AT" name LF  and  "AT" name "?" LF *)
+Lemma unknown_line_osteps : forall name rest,
+  name_ok name = true -> implicit_hit D s (upper name) = false ->
+  resolve (upper name) (enabled D s) (cmds D) = None ->
+  exists calls s4,
+    osteps calls s ([ch_A; ch_T] ++ name ++ [ch_LF] ++ rest) s4 rest ([ch_LF] ++ txt_ERROR ++ [ch_LF]) /\
+    line_done s4.
+Proof.
+  intros name rest Hok Hh Hres.
+  destruct (dispatch_lf_ex s Hn HL Hf Hst Himp Hidle name rest Hok Hh)
+    as (c1 & s2 & H1 & (M2 & F2 & U2 & R2) & S2).
+  rewrite Hres in R2. unfold Lemmas_C02e.NF in R2. change (ch_LF =? ch_LF)%N with true in R2. cbv iota in R2.
+  unfold six in S2.
+  assert (G2 : gL s2 = S (gL s) /\ gS s2 = gS s /\ gR s2 = gR s /\ k_cr (k s2) = false /\
+               k_hold (k s2) = false /\ length (cbuf s2) = length (cbuf s)).
+  { repeat split; congruence. }
+  destruct G2 as (gl2 & gs2 & gr2 & cr2 & ho2 & len2).
+  assert (Hi2 : idle s2) by (apply (Lemmas_C02e.idle_of_u s); assumption).
+  destruct (err_tail s2 rest Hi2 R2 cr2 ho2) as (s6 & O4 & R1 & R3 & R4 & R5 & R6 & R7 & R8 & R9 & R10 & R11);
+    [lia|].
+  exists (c1 + 13), s6. split.
+  - exact (osteps_trans _ _ _ _ _ _ _ _ _ _ (osteps_of_steps _ _ _ _ _ H1) O4).
+  - unfold line_done. repeat split; congruence.
+Qed.
+
+Lemma unknown_read_line_osteps : forall name rest,
+  name_ok name = true -> implicit_hit D s (upper name) = false ->
+  resolve (upper name) (enabled D s) (cmds D) = None ->
+  exists calls s4,
+    osteps calls s ([ch_A; ch_T] ++ name ++ [ch_QM; ch_LF] ++ rest) s4 rest ([ch_LF] ++ txt_ERROR ++ [ch_LF]) /\
+    line_done s4.
+Proof.
+  intros name rest Hok Hh Hres.
+  destruct (dispatch_read_ex s Hn HL Hf Hst Himp Hidle name rest Hok Hh)
+    as (c1 & s2 & H1 & (M2 & F2 & U2 & R2) & S2).
+  rewrite Hres in R2. unfold Lemmas_C02e.NF in R2. change (ch_LF =? ch_LF)%N with true in R2. cbv iota in R2.
+  unfold six in S2.
+  assert (G2 : gL s2 = S (gL s) /\ gS s2 = gS s /\ gR s2 = gR s /\ k_cr (k s2) = false /\
+               k_hold (k s2) = false /\ length (cbuf s2) = length (cbuf s)).
+  { repeat split; congruence. }
+  destruct G2 as (gl2 & gs2 & gr2 & cr2 & ho2 & len2).
+  assert (Hi2 : idle s2) by (apply (Lemmas_C02e.idle_of_u s); assumption).
+  destruct (err_tail s2 rest Hi2 R2 cr2 ho2) as (s6 & O4 & R1 & R3 & R4 & R5 & R6 & R7 & R8 & R9 & R10 & R11);
+    [lia|].
+  exists (c1 + 13), s6. split.
+  - exact (osteps_trans _ _ _ _ _ _ _ _ _ _ (osteps_of_steps _ _ _ _ _ H1) O4).
+  - unfold line_done. repeat split; congruence.
+Qed.
+
+(* a WRITE line to variables:  "AT" name "=" args LF  where args is the text READ prints for memory m *)
+Lemma write_line_osteps : forall name rest i c m args,
+  name_ok name = true -> implicit_hit D s (upper name) = false ->
+  resolve (upper name) (enabled D s) (cmds D) = Some i -> nth_error (cmds D) i = Some c ->
+  Lemmas_C07e.rt_cmd_ok m c -> Lemmas_C07e.read_args_text m c = Some args ->
+  Lemmas_C07e.same_shape m (mem s) -> ~ In ch_CR args -> length args < length (cbuf s) ->
+  exists calls s4,
+    osteps calls s ([ch_A; ch_T] ++ name ++ [ch_EQ] ++ args ++ [ch_LF] ++ rest) s4 rest
+      ([ch_LF] ++ txt_OK ++ [ch_LF]) /\
+    k_state (k s4) = CS_IDLE /\ fault s4 = false /\ u s4 = u s /\
+    gL s4 = S (gL s) /\ gS s4 = S (gS s) /\ gR s4 = S (gR s) /\
+    k_cr (k s4) = false /\ k_hold (k s4) = false /\
+    (forall v d0, In v (c_vars c) -> nth_error m (v_slot v) = Some d0 ->
+       exists d1, nth_error (mem s4) (v_slot v) = Some d1 /\ Lemmas_C07.same_value v d1 d0) /\
+    (forall sl, ~ In sl (map v_slot (c_vars c)) -> nth_error (mem s4) sl = nth_error (mem s) sl).
+Proof.
+  intros name rest i c m args Hok Hh Hres Hc Hrt Ha Hsh Hncr Hfit.
+  (* 1. dispatch *)
+  destruct (dispatch_eq_ex s Hn HL Hf Hst Himp Hidle name (args ++ [ch_LF] ++ rest) Hok Hh)
+    as (c1 & s2 & H1 & (M2 & F2 & U2 & R2) & S2).
+  rewrite Hres in R2. destruct R2 as (A1 & A2 & A3 & A4).
+  unfold six in S2.
+  assert (G2 : gL s2 = gL s /\ gS s2 = gS s /\ gR s2 = gR s /\ k_cr (k s2) = false /\
+               k_hold (k s2) = false /\ length (cbuf s2) = length (cbuf s)).
+  { repeat split; congruence. }
+  destruct G2 as (gl2 & gs2 & gr2 & cr2 & ho2 & len2).
+  pose proof (cmd_at_of_cmds i c Hc) as Hc'.
+  assert (Hi2 : idle s2) by (apply (Lemmas_C02e.idle_of_u s); assumption).
+  assert (Hcmd2 : cmd_of D ATCMD s2 = Some c) by (unfold cmd_of, g_cmd; rewrite A2; exact Hc').
+  pose proof Hrt as (Hne & Hokv & Hnd & _ & Hw & Hot & _).
+  destruct (args_no_lf m c args Hrt Ha) as (Hnlf & Hq).
+  (* 2. the call in CS_COMMAND_FOUND *)
+  pose proof (found_write_step s2 (args ++ [ch_LF] ++ rest) Hi2 A1) as H2.
+  destruct (Lemmas_C06.C06_entry D s2 c Hcmd2 A3 ltac:(unfold asz; lia)) as (E1 & E2 & E3 & E4 & E5 & E6 & E7 & E8).
+  destruct (found_write_pre s2 c Hcmd2 A3) as (K3 & gs3 & _).
+  set (s3 := command_found D s2) in *.
+  assert (Hi3 : idle s3) by (apply (Lemmas_C02e.idle_of_u s2); [apply K3 | exact Hi2]).
+  unfold asz in E5.
+  (* 3. the argument bytes *)
+  destruct (args_steps c args s3 ([ch_LF] ++ rest) Hi3 E1 E2 E3 ltac:(unfold asz; lia) ltac:(congruence)
+              E4 Hnlf Hncr (fun _ => Hq) ltac:(unfold asz; lia)) as (H3 & K5 & gs5).
+  pose proof (Lemmas_C06.C06_collect D s3 c args E1 E2 E3 ltac:(unfold asz; lia) ltac:(congruence) E4 Hnlf) as HC.
+  rewrite (no_cr_id args Hncr) in HC. specialize (HC (fun _ => Hq)). cbv zeta in HC.
+  destruct HC as (F5 & M5 & C5 & HC).
+  replace (length args <? asz s3) with true in HC by (symmetry; apply Nat.ltb_lt; unfold asz; lia).
+  destruct HC as (S5 & _ & B5 & L5 & _).
+  set (s5 := args_feed D s3 args) in *.
+  assert (Hi5 : idle s5) by (apply (Lemmas_C02e.idle_of_u s3); [apply K5 | exact Hi3]).
+  (* 4. the line feed *)
+  destruct (c_vars c) as [|v vs] eqn:Hvs; [congruence|].
+  assert (Hrw : v_access v = RW).
+  { inversion Hokv as [|? ? (A & _) _]. exact A. }
+  pose proof (pca_lf_step s5 rest c v vs Hi5 S5 C5 Hot Hvs Hrw) as H4.
+  set (s6 := pwa_entry s5) in *.
+  (* 5. the variable parser *)
+  unfold Lemmas_C07e.read_args_text in Ha.
+  change (fun v : var => match nth_error m (v_slot v) with
+                         | Some d => var_text v d | None => None end)
+    with (Lemmas_C07e.slot_text m) in Ha.
+  rewrite Hvs in Ha.
+  destruct (all_some (map (Lemmas_C07e.slot_text m) (v :: vs))) as [txts|] eqn:Hall; [|discriminate].
+  injection Ha as <-.
+  apply Lemmas_C07e.firstn_app_nul in B5.
+  set (tl := skipn (S (length (join_comma txts))) (cbuf s5)) in B5.
+  assert (HW : Lemmas_C07e.WInv D c m (mem s6) (cbuf s6) s6 [] (length (@nil N))).
+  { unfold Lemmas_C07e.WInv, Lemmas_C07e.vals_ok, Lemmas_C07e.frame_ok.
+    split; [exact F5|]. split; [reflexivity|]. split; [exact C5|].
+    split; [reflexivity|]. split; [reflexivity|]. split; [reflexivity|]. split; [reflexivity|].
+    split; [change (mem s6) with (mem s5); rewrite M5, E7, M2; exact Hsh|].
+    split; [intros v' d0 [] | intros sl _; reflexivity]. }
+  assert (Hi6 : idle s6) by exact Hi5.
+  destruct (wloop_steps c m (mem s6) (cbuf s6) rest Hw ltac:(rewrite Hvs; exact Hnd)
+              ltac:(change (cbuf s6) with (cbuf s5); lia)
+              vs v [] s6 [] txts tl Hvs Hokv HW Hi6 Hall B5)
+    as (s7 & H5 & (D1 & D2 & D3 & D4 & D5 & D6) & (K7 & FL7 & _) & I7).
+  destruct (FL7 D2) as (P1 & P2 & P3 & _ & P5). specialize (P5 D3).
+  rewrite Hvs in D5, D6.
+  destruct K3 as (u3 & gl3 & gr3 & cr3 & ho3). destruct K5 as (u5 & gl5 & gr5 & cr5 & ho5).
+  destruct K7 as (u7 & gl7 & gr7 & cr7 & ho7).
+  change (u s6) with (u s5) in u7. change (gL s6) with (S (gL s5)) in gl7. change (gR s6) with (gR s5) in gr7.
+  change (k_cr (k s6)) with (k_cr (k s5)) in cr7. change (k_hold (k s6)) with (k_hold (k s5)) in ho7.
+  change (gS s6) with (gS s5) in P5.
+  assert (Hi7 : idle s7) by (apply (Lemmas_C02e.idle_of_u s5); assumption).
+  (* 6. OK, reset *)
+  destruct (result_tail s7 rest txt_OK Hi7 (conj D2 (conj P1 (conj P2 P3))) D3
+              ltac:(congruence) ltac:(congruence) I7 D4)
+    as (s8 & O6 & R1 & R2 & R3 & R4 & R5 & R6 & R7 & R8 & R9 & _).
+  exists (c1 + (1 + (length (join_comma txts) + (1 + (length (v :: vs) + (7 + length txt_OK)))))), s8.
+  split.
+  - eapply osteps_cast;
+      [exact (osteps_trans _ _ _ _ _ _ _ _ _ _ (osteps_of_steps _ _ _ _ _ H1)
+               (osteps_trans _ _ _ _ _ _ _ _ _ _ (osteps_of_steps _ _ _ _ _ H2)
+                 (osteps_trans _ _ _ _ _ _ _ _ _ _ (osteps_of_steps _ _ _ _ _ H3)
+                   (osteps_trans _ _ _ _ _ _ _ _ _ _ (osteps_of_steps _ _ _ _ _ H4)
+                     (osteps_trans _ _ _ _ _ _ _ _ _ _ (osteps_of_steps _ _ _ _ _ H5) O6)))))
+      | reflexivity | reflexivity].
+  - split; [exact R1|]. split; [congruence|]. split; [congruence|].
+    split; [congruence|]. split; [congruence|]. split; [congruence|].
+    split; [exact R8|]. split; [exact R9|]. split.
+    + intros v' d0 Hin Hn0. rewrite R2. exact (D5 v' d0 Hin Hn0).
+    + intros sl Hsl. rewrite R2, (D6 sl Hsl). change (mem s6) with (mem s5).
+      rewrite M5, E7, M2. reflexivity.
+Qed.
+
+End Lines.
+
 End E2E.
+
+(* ================= the final statements ================= *)
+Theorem E2E_read_line_proof : forall D s name rest h i c args,
+  d_mutex D = false -> 0 < ncmds D -> ncmds D <= 4 * length (cbuf s) -> 6 <= length (cbuf s) ->
+  fault s = false ->
+  k_state (k s) = CS_IDLE -> k_cr (k s) = false -> k_implicit (k s) = false -> k_hold (k s) = false ->
+  u_state (u s) = US_IDLE -> u_count (u s) = 0 ->
+  name_ok name = true -> implicit_hit D s (upper name) = false ->
+  resolve (upper name) (enabled D s) (cmds D) = Some i -> nth_error (cmds D) i = Some c ->
+  Lemmas_C07e.rt_cmd_ok (mem s) c -> Lemmas_C07e.read_args_text (mem s) c = Some args ->
+  length (c_name c ++ [ch_EQ] ++ args) < length (cbuf s) ->
+  let w0 := mkw s ([ch_A; ch_T] ++ name ++ [ch_QM; ch_LF] ++ rest) h [] in
+  exists calls, let w := nsvc D calls w0 in
+    k_state (k (wst w)) = CS_IDLE /\ inq (wio w) = rest /\ whs w = h /\ calls_of (wtr w) = [] /\
+    mem (wst w) = mem s /\ fault (wst w) = false /\
+    output_of (wtr w) = [ch_LF] ++ c_name c ++ [ch_EQ] ++ args ++ [ch_LF] ++ [ch_LF] ++ txt_OK ++ [ch_LF] /\
+    gL (wst w) = S (gL s) /\ gS (wst w) = S (gS s) /\ gR (wst w) = S (gR s).
+Proof.
+  intros D s name rest h i c args Hmx Hn HL H6 Hf Hst Hcr Himp Hhold Hu1 Hu2 Hok Hh Hres Hc Hrt Ha Hfit w0.
+  destruct (read_line_osteps D Hmx s Hn HL H6 Hf Hst Hcr Himp Hhold (conj Hu1 Hu2)
+              name rest i c args Hok Hh Hres Hc Hrt Ha Hfit)
+    as (calls & s4 & O & (L1 & L2 & L3 & L4 & L5 & L6 & L7 & _)).
+  exists calls. intros w.
+  destruct (osteps_world D calls s _ s4 rest _ h O) as (E1 & E2 & E3 & E4 & E5).
+  fold w0 in E1, E2, E3, E4, E5. fold w in E1, E2, E3, E4, E5. rewrite E1.
+  repeat (split; [assumption|]). assumption.
+Qed.
+
+Theorem E2E_unknown_line_proof : forall D s name rest h,
+  d_mutex D = false -> 0 < ncmds D -> ncmds D <= 4 * length (cbuf s) -> 6 <= length (cbuf s) ->
+  fault s = false ->
+  k_state (k s) = CS_IDLE -> k_cr (k s) = false -> k_implicit (k s) = false -> k_hold (k s) = false ->
+  u_state (u s) = US_IDLE -> u_count (u s) = 0 ->
+  name_ok name = true -> implicit_hit D s (upper name) = false ->
+  resolve (upper name) (enabled D s) (cmds D) = None ->
+  let w0 := mkw s ([ch_A; ch_T] ++ name ++ [ch_LF] ++ rest) h [] in
+  exists calls, let w := nsvc D calls w0 in
+    k_state (k (wst w)) = CS_IDLE /\ inq (wio w) = rest /\ whs w = h /\ calls_of (wtr w) = [] /\
+    mem (wst w) = mem s /\ fault (wst w) = false /\
+    output_of (wtr w) = [ch_LF] ++ txt_ERROR ++ [ch_LF] /\
+    gL (wst w) = S (gL s) /\ gS (wst w) = S (gS s) /\ gR (wst w) = S (gR s).
+Proof.
+  intros D s name rest h Hmx Hn HL H6 Hf Hst Hcr Himp Hhold Hu1 Hu2 Hok Hh Hres w0.
+  destruct (unknown_line_osteps D Hmx s Hn HL H6 Hf Hst Hcr Himp Hhold (conj Hu1 Hu2)
+              name rest Hok Hh Hres)
+    as (calls & s4 & O & (L1 & L2 & L3 & L4 & L5 & L6 & L7 & _)).
+  exists calls. intros w.
+  destruct (osteps_world D calls s _ s4 rest _ h O) as (E1 & E2 & E3 & E4 & E5).
+  fold w0 in E1, E2, E3, E4, E5. fold w in E1, E2, E3, E4, E5. rewrite E1.
+  repeat (split; [assumption|]). assumption.
+Qed.
+
+Theorem E2E_unknown_read_line_proof : forall D s name rest h,
+  d_mutex D = false -> 0 < ncmds D -> ncmds D <= 4 * length (cbuf s) -> 6 <= length (cbuf s) ->
+  fault s = false ->
+  k_state (k s) = CS_IDLE -> k_cr (k s) = false -> k_implicit (k s) = false -> k_hold (k s) = false ->
+  u_state (u s) = US_IDLE -> u_count (u s) = 0 ->
+  name_ok name = true -> implicit_hit D s (upper name) = false ->
+  resolve (upper name) (enabled D s) (cmds D) = None ->
+  let w0 := mkw s ([ch_A; ch_T] ++ name ++ [ch_QM; ch_LF] ++ rest) h [] in
+  exists calls, let w := nsvc D calls w0 in
+    k_state (k (wst w)) = CS_IDLE /\ inq (wio w) = rest /\ whs w = h /\ calls_of (wtr w) = [] /\
+    mem (wst w) = mem s /\ fault (wst w) = false /\
+    output_of (wtr w) = [ch_LF] ++ txt_ERROR ++ [ch_LF] /\
+    gL (wst w) = S (gL s) /\ gS (wst w) = S (gS s) /\ gR (wst w) = S (gR s).
+Proof.
+  intros D s name rest h Hmx Hn HL H6 Hf Hst Hcr Himp Hhold Hu1 Hu2 Hok Hh Hres w0.
+  destruct (unknown_read_line_osteps D Hmx s Hn HL H6 Hf Hst Hcr Himp Hhold (conj Hu1 Hu2)
+              name rest Hok Hh Hres)
+    as (calls & s4 & O & (L1 & L2 & L3 & L4 & L5 & L6 & L7 & _)).
+  exists calls. intros w.
+  destruct (osteps_world D calls s _ s4 rest _ h O) as (E1 & E2 & E3 & E4 & E5).
+  fold w0 in E1, E2, E3, E4, E5. fold w in E1, E2, E3, E4, E5. rewrite E1.
+  repeat (split; [assumption|]). assumption.
+Qed.
+
+Theorem E2E_write_line_proof : forall D s name rest h i c m args,
+  d_mutex D = false -> 0 < ncmds D -> ncmds D <= 4 * length (cbuf s) -> 6 <= length (cbuf s) ->
+  fault s = false ->
+  k_state (k s) = CS_IDLE -> k_cr (k s) = false -> k_implicit (k s) = false -> k_hold (k s) = false ->
+  u_state (u s) = US_IDLE -> u_count (u s) = 0 ->
+  name_ok name = true -> implicit_hit D s (upper name) = false ->
+  resolve (upper name) (enabled D s) (cmds D) = Some i -> nth_error (cmds D) i = Some c ->
+  Lemmas_C07e.rt_cmd_ok m c -> Lemmas_C07e.read_args_text m c = Some args ->
+  Lemmas_C07e.same_shape m (mem s) -> ~ In ch_CR args -> length args < length (cbuf s) ->
+  let w0 := mkw s ([ch_A; ch_T] ++ name ++ [ch_EQ] ++ args ++ [ch_LF] ++ rest) h [] in
+  exists calls, let w := nsvc D calls w0 in
+    k_state (k (wst w)) = CS_IDLE /\ inq (wio w) = rest /\ whs w = h /\ calls_of (wtr w) = [] /\
+    fault (wst w) = false /\
+    output_of (wtr w) = [ch_LF] ++ txt_OK ++ [ch_LF] /\
+    (forall v d0, In v (c_vars c) -> nth_error m (v_slot v) = Some d0 ->
+       exists d1, nth_error (mem (wst w)) (v_slot v) = Some d1 /\ Lemmas_C07.same_value v d1 d0) /\
+    (forall sl, ~ In sl (map v_slot (c_vars c)) -> nth_error (mem (wst w)) sl = nth_error (mem s) sl) /\
+    gL (wst w) = S (gL s) /\ gS (wst w) = S (gS s) /\ gR (wst w) = S (gR s).
+Proof.
+  intros D s name rest h i c m args Hmx Hn HL H6 Hf Hst Hcr Himp Hhold Hu1 Hu2 Hok Hh Hres Hc Hrt Ha
+         Hsh Hncr Hfit w0.
+  destruct (write_line_osteps D Hmx s Hn HL H6 Hf Hst Hcr Himp Hhold (conj Hu1 Hu2)
+              name rest i c m args Hok Hh Hres Hc Hrt Ha Hsh Hncr Hfit)
+    as (calls & s4 & O & L1 & L2 & _ & L4 & L5 & L6 & _ & _ & L9 & L10).
+  exists calls. intros w.
+  destruct (osteps_world D calls s _ s4 rest _ h O) as (E1 & E2 & E3 & E4 & E5).
+  fold w0 in E1, E2, E3, E4, E5. fold w in E1, E2, E3, E4, E5. rewrite E1.
+  repeat (split; [assumption|]). assumption.
+Qed.
+
+Print Assumptions E2E_read_line_proof.
+Print Assumptions E2E_unknown_line_proof.
+Print Assumptions E2E_unknown_read_line_proof.
+Print Assumptions E2E_write_line_proof.
